@@ -406,4 +406,5 @@ def run_session(cfg: Dict[str, Any]) -> Dict[str, Any]:
     except OSError:
         pass
     result['clock'] = sched.clock
+    result['npoints'] = {t.name: t.npoints for t in sched.threads}
     return result
